@@ -1,6 +1,170 @@
+(* C36 — backend name/path mapping round-trips for every name.
+   Statements only; every proof is `exact <lemma from Proof/C36.v or Proof/PathLib.v>`.
+   The model is pather.go with fixes/C36_quote_root.patch and fixes/C36_identity_clean_root.patch
+   applied; the `_refuted` theorems are about the code at the pinned commit. *)
 From Coq Require Import List NArith.
-From K.Model Require Import C36.
-From K.Proof Require C36.
+From K.Model Require Import PathLib C36.
+From K.Gen Require Import C36_consts.
+From K.Proof Require PathLib C36.
 Import ListNotations.
-Example C36_nonvacuous_placeholder : valid_root [47]%N = true.
-Proof. vm_compute. reflexivity. Qed.
+
+(* ---- the property, one theorem per scheme: for EVERY valid root (absolute, any depth, any number
+   of trailing / doubled slashes, "." and ".." elements, regexp metacharacters, "/" itself) and every
+   valid name, BlobPath succeeds and NameFromBlobPath of its result is the name *)
+
+Theorem C36_roundtrip_tag : forall root name,
+  valid_root root = true -> valid_tag_name name = true ->
+  exists bp, blob_path STag root name = Ok bp /\ name_from_path STag root bp = Ok name.
+Proof. exact Proof.C36.roundtrip_tag. Qed.
+Print Assumptions C36_roundtrip_tag.
+
+Theorem C36_roundtrip_blob : forall root name,
+  valid_root root = true -> valid_blob_name name = true ->
+  exists bp, blob_path SBlob root name = Ok bp /\ name_from_path SBlob root bp = Ok name.
+Proof. exact Proof.C36.roundtrip_blob. Qed.
+Print Assumptions C36_roundtrip_blob.
+
+Theorem C36_roundtrip_identity : forall root name,
+  valid_root root = true -> valid_ident_name name = true ->
+  exists bp, blob_path SIdent root name = Ok bp /\ name_from_path SIdent root bp = Ok name.
+Proof. exact Proof.C36.roundtrip_identity. Qed.
+Print Assumptions C36_roundtrip_identity.
+
+(* stronger forms: the two Docker schemes round-trip for ANY root string (relative, empty, ...),
+   the identity scheme for any absolute root of arbitrary bytes *)
+Theorem C36_roundtrip_tag_any_root : forall root name,
+  valid_tag_name name = true -> exists bp, roundtrip STag root name = (Ok bp, Ok name).
+Proof. exact Proof.C36.roundtrip_tag_any_root. Qed.
+Print Assumptions C36_roundtrip_tag_any_root.
+
+Theorem C36_roundtrip_blob_any_root : forall root name,
+  valid_blob_name name = true -> exists bp, roundtrip SBlob root name = (Ok bp, Ok name).
+Proof. exact Proof.C36.roundtrip_blob_any_root. Qed.
+Print Assumptions C36_roundtrip_blob_any_root.
+
+Theorem C36_roundtrip_identity_abs_root : forall root name,
+  is_rooted root = true -> valid_ident_name name = true ->
+  exists bp, roundtrip SIdent root name = (Ok bp, Ok name).
+Proof. exact Proof.C36.roundtrip_ident_abs_root. Qed.
+Print Assumptions C36_roundtrip_identity_abs_root.
+
+(* "listings report the names that were uploaded": distinct valid names never share a path *)
+Theorem C36_blob_path_injective : forall sch root n1 n2 bp,
+  valid_root root = true -> valid_name sch n1 = true -> valid_name sch n2 = true ->
+  blob_path sch root n1 = Ok bp -> blob_path sch root n2 = Ok bp -> n1 = n2.
+Proof. exact Proof.C36.blob_path_injective. Qed.
+Print Assumptions C36_blob_path_injective.
+
+(* the names Kraken stores under sharded_docker_blob (lower-case hex digests) are valid names *)
+Theorem C36_hex_digests_valid : forall n,
+  is_hex n = true -> (2 < length n)%nat -> valid_blob_name n = true.
+Proof. exact Proof.C36.hex_valid. Qed.
+Print Assumptions C36_hex_digests_valid.
+
+(* ---- the literals of pather.go (Gen/C36_consts.v, regenerated from the source on every run):
+   the two patterns compile to the shapes the proofs are about, built from the same element
+   literals BlobPath joins *)
+Theorem C36_tag_pattern :
+  compile tag_re_lit = Some (tag_shape tag_mid_lit tag_end_lit).
+Proof. exact Proof.C36.tag_re_compiles. Qed.
+Print Assumptions C36_tag_pattern.
+
+Theorem C36_blob_pattern :
+  compile blob_re_lit = Some (blob_shape blob_alg_lit blob_end_lit).
+Proof. exact Proof.C36.blob_re_compiles. Qed.
+Print Assumptions C36_blob_pattern.
+
+(* ---- executable form used on observed round trips *)
+Theorem C36_check_sound : forall sch root name,
+  C36_check sch root name (roundtrip sch root name) = true.
+Proof. exact Proof.C36.check_sound. Qed.
+Print Assumptions C36_check_sound.
+
+(* ---- shared path library *)
+Theorem C36_clean_idempotent : forall s, clean (clean s) = clean s.
+Proof. exact Proof.PathLib.clean_idem. Qed.
+Print Assumptions C36_clean_idempotent.
+
+Theorem C36_clean_join_assoc : forall x y, x <> [] ->
+  clean (clean x ++ slash :: y) = clean (x ++ slash :: y).
+Proof. exact Proof.PathLib.clean_clean_app. Qed.
+Print Assumptions C36_clean_join_assoc.
+
+(* ---- the code at the pinned commit violates the property (witnesses are harness seed cases) *)
+
+(* root "/a/", name "bc": NameFromBlobPath returns "c" *)
+Theorem C36_identity_trailing_slash_refuted :
+  exists root name, valid_root root = true /\ valid_ident_name name = true /\
+    roundtrip_pre SIdent root name = (Ok (root ++ name), Ok (tl name)) /\ tl name <> name.
+Proof. exact Proof.C36.identity_trailing_slash_refuted. Qed.
+Print Assumptions C36_identity_trailing_slash_refuted.
+
+(* root "/" *)
+Theorem C36_identity_fs_root_refuted :
+  exists name, valid_ident_name name = true /\
+    snd (roundtrip_pre SIdent [slash] name) = Ok (tl name) /\ tl name <> name.
+Proof. exact Proof.C36.identity_fs_root_refuted. Qed.
+Print Assumptions C36_identity_fs_root_refuted.
+
+(* root "/a//b": the path BlobPath produced is rejected *)
+Theorem C36_identity_unclean_root_refuted :
+  exists root name, valid_root root = true /\ valid_ident_name name = true /\
+    snd (roundtrip_pre SIdent root name) = Err.
+Proof. exact Proof.C36.identity_unclean_root_refuted. Qed.
+Print Assumptions C36_identity_unclean_root_refuted.
+
+(* root "/a+b": the root is spliced into the pattern unquoted, the produced path is rejected *)
+Theorem C36_unquoted_root_refuted :
+  exists root tname bname, valid_root root = true /\ valid_tag_name tname = true /\ valid_blob_name bname = true /\
+    snd (roundtrip_pre STag root tname) = Err /\ snd (roundtrip_pre SBlob root bname) = Err.
+Proof. exact Proof.C36.unquoted_root_refuted. Qed.
+Print Assumptions C36_unquoted_root_refuted.
+
+(* root "/c++": regexp.MustCompile panics *)
+Theorem C36_unquoted_root_panic_refuted :
+  exists root tname, valid_root root = true /\ valid_tag_name tname = true /\
+    snd (roundtrip_pre STag root tname) = Panic.
+Proof. exact Proof.C36.unquoted_root_panic_refuted. Qed.
+Print Assumptions C36_unquoted_root_panic_refuted.
+
+(* ---- non-vacuity: concrete valid roots and names, and what the model computes for them *)
+
+(* root "/infra/dockerRegistry/" (hdfs default), name "repo-bar:latest" *)
+Example C36_nonvacuous_tag :
+  let root := [47;105;110;102;114;97;47;100;111;99;107;101;114;82;101;103;105;115;116;114;121;47]%N in
+  let name := [114;101;112;111;45;98;97;114;58;108;97;116;101;115;116]%N in
+  valid_root root = true /\ valid_tag_name name = true /\
+  snd (roundtrip STag root name) = Ok name.
+Proof. vm_compute. repeat split. Qed.
+
+(* root "/", name "library/ubuntu:18.04" *)
+Example C36_nonvacuous_tag_fs_root :
+  let name := [108;105;98;114;97;114;121;47;117;98;117;110;116;117;58;49;56;46;48;52]%N in
+  valid_root [47]%N = true /\ valid_tag_name name = true /\
+  roundtrip STag [47]%N name =
+    (Ok ([47] ++ tag_base_lit ++ [47;108;105;98;114;97;114;121;47;117;98;117;110;116;117;47] ++ tag_mid_lit
+         ++ [47;49;56;46;48;52;47] ++ tag_end_lit)%N, Ok name).
+Proof. vm_compute. repeat split. Qed.
+
+(* root "/c++/x//", digest "ff85ceb9" *)
+Example C36_nonvacuous_blob :
+  let root := [47;99;43;43;47;120;47;47]%N in
+  let name := [102;102;56;53;99;101;98;57]%N in
+  valid_root root = true /\ is_hex name = true /\ valid_blob_name name = true /\
+  snd (roundtrip SBlob root name) = Ok name.
+Proof. vm_compute. repeat split. Qed.
+
+(* root "/a/../b/", name "foo/bar" *)
+Example C36_nonvacuous_identity :
+  let root := [47;97;47;46;46;47;98;47]%N in
+  let name := [102;111;111;47;98;97;114]%N in
+  valid_root root = true /\ valid_ident_name name = true /\
+  roundtrip SIdent root name = (Ok [47;98;47;102;111;111;47;98;97;114]%N, Ok name).
+Proof. vm_compute. repeat split. Qed.
+
+(* the validity predicates do reject: "a:b:c", "ab", "..x", "a//b", relative root *)
+Example C36_nonvacuous_rejects :
+  valid_tag_name [97;58;98;58;99]%N = false /\ valid_blob_name [97;98]%N = false /\
+  valid_blob_name [46;46;120]%N = false /\ valid_ident_name [97;47;47;98]%N = false /\
+  valid_root [97;47]%N = false.
+Proof. vm_compute. repeat split. Qed.
